@@ -106,6 +106,8 @@ FS_VALUES = [0.5, 1.0, 2.0, 10.0, 125.0, 250.0, 1000.0, 44100.0, 3.7, 1.0 / 3.0,
 
 
 def data_for(m):
+    if m.get('_data') is not None:           # run-time only (never in a replay file): the samples as they are now
+        return np.array(m['_data'])
     r = np.random.RandomState(m.get('dseed', 0))
     n = m['n']
     nch = m.get('nch', 2)       # number of channels: 1 (a single-channel shortcut must report the same grid), 2, 4
@@ -248,6 +250,8 @@ def run_call(m):
         return run_two(m)
     if m.get('call') == 'sk':
         return run_sk(m)
+    if m.get('call') == 'fail':
+        return run_fail(m)
     if m.get('sandwich') and not m.get('_inner'):
         return run_sandwich(m)
     import nitime.algorithms as tsa
@@ -668,6 +672,495 @@ def judge_two(m, res):
     return out
 
 
+# ------------------------------------------------------------------ failure paths (L7) and aliasing (L8), round 2
+# fam 'sess'     ONE CoherenceAnalyzer (welch) / SparseCoherenceAnalyzer through a session of set_input calls with series the
+#                class may refuse (1-d, too few channels for ij, shorter than NFFT), with a good series of another rate, with
+#                the SAME TimeSeries object after its data changed in place, with a reversed / row-strided view of the data
+#                held; every exception caught; reset(); `.frequencies` (kept, re-inspected at the end) and spectrum values read
+#                in between.  Model: `C05 sess` (the set_input body generated from the source).
+# fam 'setinput' every other analyzer with a set_input: one refused / odd candidate, caught, then read.
+# fam 'ctor'     constructors called with arguments they refuse (caller's method dict and series snapshot-compared), then a
+#                proper analyzer built with the SAME dict and series.
+# fam 'fn'       get_spectra / cache_fft / get_bounds-users called with arguments they refuse (unknown this_method, window of
+#                the wrong length, lb > ub, NFFT that is no integer), then called properly with the SAME method dict and data.
+SESS_CLS = {'CoherenceAnalyzer.frequencies/welch': 'coherence', 'SparseCoherenceAnalyzer.frequencies': 'sparse'}
+CAND_KINDS = ('1d', 'few', 'short', 'ok', 'same-changed', 'rev-view', 'row-view')
+
+
+def canon_state(v, depth=0):
+    """hashable picture of an analyzer attribute / a method dict entry"""
+    import hashlib
+    if isinstance(v, dict):
+        return tuple(sorted((str(k), canon_state(x, depth + 1)) for k, x in v.items()))
+    if isinstance(v, np.ndarray):
+        a = np.asarray(v)
+        d = getattr(v, 'data', None)
+        if type(v).__module__.startswith('nitime') and isinstance(d, np.ndarray) and d is not v:
+            return ('ts', id(v), canon_state(d, depth + 1))
+        try:
+            return ('arr', a.shape, str(a.dtype), hashlib.md5(np.ascontiguousarray(a).tobytes()).hexdigest())
+        except Exception:
+            return ('arr', a.shape, str(a.dtype))
+    if isinstance(v, (list, tuple)) and depth < 3:
+        return tuple(canon_state(x, depth + 1) for x in v)
+    if isinstance(v, (int, float, str, bool, type(None), complex)):
+        return v
+    try:
+        return ('num', float(v))
+    except Exception:
+        return ('obj', id(v))
+
+
+def analyzer_state(A):
+    st = {}
+    for k, v in vars(A).items():
+        st[k] = ('ts', id(v)) if k in ('input', 'seed', 'target') else canon_state(v)
+    return st
+
+
+def state_diff(a, b):
+    return sorted(k for k in set(a) | set(b) if a.get(k) != b.get(k))
+
+
+def cand_rate(c):
+    """the sampling rate of candidate c's own series, Hz (exact)"""
+    if c.get('interval') is not None:
+        return Fr(10**12) / (Fr(c['interval']) * UNIT_PS[c['unit']])
+    return Fr(x2f(c['Fs']))
+
+
+def cand_meta(mA, c):
+    """the ordinary call description of the analyzer's state if candidate c is the input held"""
+    mm = {k: v for k, v in mA.items() if k not in ('interval',)}
+    mm.update(unit=c.get('unit', 's'), n=c['n'], dseed=c['dseed'])
+    if (mA.get('opts') or {}).get('fs_dict'):
+        # the caller fixed 'Fs' in the method dict: the series' own rate is not to be used
+        mm['opts'] = dict(mA['opts'], series_fs=f2x(float(cand_rate(c))))
+    else:
+        mm['Fs'] = c['Fs']
+        if c.get('interval') is not None:
+            mm['interval'] = c['interval']
+    if mA['call'] in N_IS_LENGTH:
+        mm['N'] = c['n']
+    return mm
+
+
+def cand_series(mA, c, held):
+    """the object handed to set_input for candidate c (held: the TimeSeries the analyzer holds now)"""
+    import nitime.timeseries as ts
+    kind = c['kind']
+    if kind == 'same-changed':          # the SAME object again, its samples changed in place meanwhile
+        np.asarray(held.data)[...] = data_for(cand_meta(mA, c)).reshape(np.asarray(held.data).shape)
+        return held
+    mm = cand_meta(mA, c)
+    x = data_for(mm)
+    if kind == '1d':
+        x = x[0]
+    elif kind == 'few':
+        x = x[:1]
+    elif kind == 'rev-view':            # a reversed view of the samples held
+        x = np.asarray(held.data)[..., ::-1]
+    elif kind == 'row-view':            # a row-strided view of a larger block
+        big = np.vstack([x, x[::-1], 2.0 * x])
+        x = big[::2][:x.shape[0]] if x.shape[0] > 1 else big[:1]
+    return mk_ts(mm, x)
+
+
+def read_value(name, A):
+    """a spectrum-like VALUE of the analyzer that depends on Fs (power spectral density / delay), as a flat float array"""
+    if name.startswith('CoherenceAnalyzer.'):
+        return np.abs(np.asarray(A.spectrum)).reshape(-1)
+    if name == 'SparseCoherenceAnalyzer.frequencies':
+        sp = A.spectrum
+        return np.concatenate([np.real(np.asarray(sp[k])).reshape(-1) for k in sorted(sp)])
+    r = an_spec(name, A)
+    if isinstance(r, tuple):
+        r = r[1]
+    return np.abs(np.asarray(getattr(r, 'data', r), dtype=complex)).reshape(-1)
+
+
+def run_fail(m):
+    fam = m['fam']
+    if fam in ('sess', 'setinput'):
+        return run_sess(m)
+    if fam == 'ctor':
+        return run_ctor(m)
+    return run_fn(m)
+
+
+def run_sess(m):
+    name, mA = m['site'], dict(m['base'])
+    A = an_build(name, mA)
+    inputs, metas = [A.input], [mA]
+    reads, seen, changed, val_bad, nraise = [], [], [], [], 0
+    for ev in m['events']:
+        if ev['op'] == 's':
+            c = ev['cand']
+            held = A.input
+            try:
+                T = cand_series(mA, c, held)
+            except Exception:  # noqa -- the candidate cannot be built (not this analyzer's matter)
+                continue
+            if c['kind'] == 'same-changed':
+                hid = [i for i, t in enumerate(inputs) if t is held][0]
+                metas[hid] = dict(metas[hid], dseed=c['dseed'])
+            before, dbefore = analyzer_state(A), canon_state(getattr(A, 'method', None))
+            try:
+                A.set_input(T)
+                raised = None
+            except Exception as e:  # noqa -- a refused call: the caller goes on with the analyzer
+                raised = err_kind(e)
+            if raised:
+                nraise += 1
+                d = state_diff(before, analyzer_state(A))
+                if d or canon_state(getattr(A, 'method', None)) != dbefore:
+                    changed.append({'after': '%s(%s)' % (c['kind'], raised), 'attributes': d,
+                                    'method_dict_changed': canon_state(getattr(A, 'method', None)) != dbefore})
+            if T is not held:
+                inputs.append(T)
+                metas.append(cand_meta(mA, c) if c['kind'] not in ('1d', 'few') else dict(cand_meta(mA, c), degenerate=c['kind']))
+            seen.append('s%s:%d:%d' % (f2x(float(cand_rate(c))), 1 if raised else 0, [i for i, t in enumerate(inputs) if t is T][0]))
+        elif ev['op'] == 'r':
+            A.reset()
+            seen.append('r')
+        else:
+            hid = ([i for i, t in enumerate(inputs) if t is A.input] or [-1])[0]
+            mh = metas[hid] if hid >= 0 else None
+            try:
+                if ev['op'] == 'f':
+                    f = an_freq(name, A, mh or mA)[0]
+                    if mh is not None and mh.get('degenerate'):
+                        # a 1-d / one-channel series that the class ACCEPTED: its samples are read as channels; outside the
+                        # property's quantifier, exercised but not recorded
+                        SKIPPED['sess-read'] = SKIPPED.get('sess-read', 0) + 1
+                        continue
+                    reads.append((hid, f, snapshot(f)))
+                    seen.append('f')
+                else:
+                    v = np.array(read_value(name, A), dtype=float)
+                    if mh is not None and not mh.get('degenerate'):
+                        w = np.array(read_value(name, an_build(name, dict(mh, _data=np.array(np.asarray(A.input.data), copy=True)))), dtype=float)
+                        if v.shape != w.shape or not np.allclose(v, w, rtol=1e-9, atol=1e-12 * (np.abs(w).max() if w.size else 1.0), equal_nan=True):
+                            val_bad.append({'held': hid, 'got': [float(t) for t in v[:3]], 'fresh': [float(t) for t in w[:3]]})
+            except Exception:  # noqa -- a result that cannot be computed on a degenerate input that was ACCEPTED: not judged
+                SKIPPED['sess-read'] = SKIPPED.get('sess-read', 0) + 1
+    views = [(hid, snap, snapshot(obj)) for hid, obj, snap in reads]
+    return {'views': views, 'metas': metas, 'seen': seen, 'changed': changed, 'val_bad': val_bad, 'nraise': nraise}
+
+
+CTOR_KINDS = {'C': ('1d', 'bad-this-method'), 'P': ('bad-this-method', 'no-this-method', '1d', 'few'), 'E': ('rates-differ', 'bad-this-method', '1d')}
+CTOR_LEAN = {'C': 'coherence', 'P': 'sparse', 'E': 'seed'}
+
+
+def run_ctor(m):
+    """a construction with arguments the class may refuse, given a CALLER's method dict d and series; then a proper analyzer
+    with the same dict object and an equal fresh dict, on a good series of another rate"""
+    import nitime.analysis as an
+    import nitime.timeseries as ts
+    cls, kind, N = m['cls'], m['kind'], m['N']
+    mB, mG = dict(m['bad']), dict(m['good'])
+    d = {'this_method': 'welch', 'NFFT': N, 'n_overlap': N // 2}
+    if kind == 'bad-this-method':
+        d['this_method'] = 'multi_taper_csd' if cls != 'C' else 'no_such_method'
+    if kind == 'no-this-method':
+        del d['this_method']
+    x = data_for(mB)
+    if kind == '1d':
+        x = x[0]
+    if kind == 'few':
+        x = x[:1]
+    T = mk_ts(mB, x)
+    T2 = mk_ts(dict(mB, Fs=mG['Fs'], interval=None), data_for(mB)) if kind == 'rates-differ' else T
+    d0, t0 = canon_state(d), canon_state(np.asarray(T.data))
+    try:
+        A0 = an.CoherenceAnalyzer(T, method=d) if cls == 'C' else an.SparseCoherenceAnalyzer(T, ij=[(0, 1)], method=d) if cls == 'P' \
+            else an.SeedCoherenceAnalyzer(T, T2, method=d)
+        raised = None
+    except Exception as e:  # noqa
+        raised = err_kind(e)
+    written = canon_state(d) != d0
+    data_changed = canon_state(np.asarray(T.data)) != t0
+    out = {'raised': raised, 'written': written, 'data_changed': data_changed, 'stamped': sorted(set(d) - {'this_method', 'NFFT', 'n_overlap'})}
+    if raised:
+        # the caller repairs what was refused and goes on with ITS dict
+        d['this_method'] = 'welch'
+        G = mk_ts(mG, data_for(mG))
+        own = {'this_method': 'welch', 'NFFT': N, 'n_overlap': N // 2}
+        mk = lambda dd: an.CoherenceAnalyzer(G, method=dd) if cls == 'C' else an.SparseCoherenceAnalyzer(G, ij=[(0, 1)], method=dd) if cls == 'P' \
+            else an.SeedCoherenceAnalyzer(G, G, method=dd)
+        out['f_same'] = snapshot(mk(d).frequencies)
+        out['f_own'] = snapshot(mk(own).frequencies)
+    return out
+
+
+FN_KINDS = ('get_spectra/unknown-method', 'get_spectra/window-length', 'cache_fft/inverted-band', 'cache_fft/window-length',
+            'cache_fft/unknown-method', 'cache_fft/nfft-float', 'get_spectra/nfft-float')
+
+
+def run_fn(m):
+    """the function called with arguments it refuses, the exception caught; then called properly with the SAME method dict
+    object (the refused entry repaired by the caller) and the same data array"""
+    import nitime.algorithms as tsa
+    fn, kind = m['kind'].split('/')
+    N, Fs = m['N'], x2f(m['Fs'])
+    x = data_for(m)
+    d = {'this_method': 'welch', 'NFFT': N, 'Fs': Fs, 'n_overlap': N // 2}
+    good = dict(d)
+    kw = {}
+    if kind == 'unknown-method':
+        d['this_method'] = 'no_such_method'
+    elif kind == 'window-length':
+        d['window'] = np.hanning(N + 3)
+    elif kind == 'nfft-float':
+        d['NFFT'] = N + 0.5
+    elif kind == 'inverted-band':
+        kw = {'lb': 0.4 * Fs, 'ub': 0.1 * Fs}
+    x0 = canon_state(x)
+    call = (lambda dd, **k: tsa.get_spectra(x, dd)) if fn == 'get_spectra' else (lambda dd, **k: tsa.cache_fft(x, [(0, 1)], method=dd, **k))
+    try:
+        call(d, **kw)
+        raised = None
+    except Exception as e:  # noqa
+        raised = err_kind(e)
+    bad_keys = [k for k in d if k not in good or canon_state(d[k]) != canon_state(good[k])]
+    repaired = {k: v for k, v in d.items() if k in good}
+    for k in good:
+        if k in ('this_method', 'NFFT') or k not in repaired:
+            repaired[k] = good[k]
+    leaked = sorted(k for k in d if k not in good and k != 'window')
+    d.clear()
+    d.update(repaired)
+    f = call(d)[0]
+    return {'raised': raised, 'f': snapshot(f), 'data_changed': canon_state(x) != x0, 'leaked': leaked}
+
+
+def fail_line(m, res):
+    fam = m['fam']
+    if fam == 'sess':
+        mA = m['base']
+        ufs = f2x(float(fs_true(mA))) if (mA.get('opts') or {}).get('fs_dict') else 'none'
+        seen = res['seen'] if isinstance(res, dict) else []
+        return 'C05 sess %s %d %s %s %s %s %s' % (SESS_CLS[m['site']], mA['N'], mA.get('lb') or '0', mA.get('ub') or 'none', ufs,
+                                                   f2x(float(fs_true(mA))), ' '.join(seen))
+    if fam == 'setinput':
+        # the analyzer's grid for the input it holds at the end (the ordinary vector op)
+        if isinstance(res, dict) and res['views']:
+            mh = res['metas'][res['views'][-1][0]]
+            return model_line({k: v for k, v in mh.items() if k not in ('degenerate',)})
+        if isinstance(res, dict) and res['changed']:
+            return 'C05 true1 x3ff0000000000000 2'          # no vector was read: only the state comparison is reported
+        return model_line(dict(m['base']))
+    if fam == 'ctor':
+        return 'C05 ctor %s %d' % (CTOR_LEAN[m['cls']], 1 if isinstance(res, dict) and res['raised'] else 0)
+    return 'C05 true1 %s %d' % (m['Fs'], m['N'])
+
+
+def fail_impl(m, res):
+    fam = m['fam']
+    if isinstance(res, str):
+        return res
+    if fam == 'sess':
+        return ';'.join('%d@%s' % (hid, flist(end)) for hid, snap, end in res['views']) or 'none'
+    if fam == 'setinput':
+        if not res['views']:
+            return 'skip' if not res['changed'] else 'x0000000000000000,x3fe0000000000000'
+        v = res['views'][-1][2]
+        return ilist(v) if isinstance(v, list) else flist(v)
+    if fam == 'ctor':
+        return '%d %d' % (1 if res['written'] else 0, 1 if res['raised'] else 0)
+    return flist(res['f'])
+
+
+def cmp_sess(impl, model):
+    if impl in ('none',) or impl.startswith('err') or model in ('none', 'unsupported', 'bad-args', 'no-such-class'):
+        return impl == model
+    a, b = impl.split(';'), model.split(';')
+    if len(a) != len(b):
+        return False
+    one = cmp_grid(False)
+    for x, y in zip(a, b):
+        ix, vx = x.split('@')
+        iy, vy = y.split('@')
+        if ix != iy or not one(vx, vy):
+            return False
+    return True
+
+
+def fail_case(m):
+    try:
+        res = run_fail(m)
+    except NotApplicable:
+        raise
+    except Exception as e:  # noqa
+        res = 'err ' + err_kind(e)
+    fam = m['fam']
+    impl = fail_impl(m, res)
+    if fam == 'setinput' and impl == 'skip':
+        res = 'err skipped'
+    kind = CALLS[m['site']][1] if fam == 'setinput' and not (isinstance(res, dict) and not res['views']) else 'one'
+    cmp = cmp_sess if fam == 'sess' else None if (fam == 'ctor' or kind == 'keep') else cmp_grid(kind == 'shift')
+    c = _C(fail_line(m, res), impl, '%s/%s' % ({'sess': 'refused-set_input/session', 'setinput': 'refused-set_input', 'ctor': 'refused-constructor',
+                                                 'fn': 'refused-call'}[fam], m.get('site') or m.get('cls') or m.get('kind')),
+           cmp=cmp, meta=m, nontrivial=True)
+    c._res = res
+    return c
+
+
+def judge_fail(m, res):
+    fam = m['fam']
+    out = []
+    if isinstance(res, str):
+        return out if res == 'err skipped' else [('%s/%s/raises' % (fam, m.get('site') or m.get('cls') or m.get('kind')), 'the harness could not run the scenario: ' + res)]
+    if fam in ('sess', 'setinput'):
+        name = m['site']
+        pre = '%s/refused-set_input' % name
+        evs = ' '.join(e['op'] if e['op'] != 's' else 's(%s)' % e['cand']['kind'] for e in m['events'])
+        for ch in res['changed']:
+            out.append((pre + '/state-changed', '%s: set_input %s raised, yet the analyzer is not as it was: attributes %s%s (events: %s)' % (
+                name, ch['after'], ch['attributes'], ', method dict changed' if ch['method_dict_changed'] else '', evs)))
+            break
+        for i, (hid, snap, end) in enumerate(res['views']):
+            if hid < 0:
+                out.append((pre + '/input-lost', '%s holds an input that is none of the series it was given (events: %s)' % (name, evs)))
+                break
+            mh = {k: v for k, v in res['metas'][hid].items() if k != 'degenerate'}
+            js = judge_one(mh, (end, None, None, None), pre)
+            for key, what in js:
+                if key not in [k for k, _ in out]:
+                    out.append((key, 'events %s (set_input outcomes as observed: %s): read #%d, input held = series #%d: %s' % (evs, ' '.join(res['seen']), i + 1, hid, what)))
+            if not same_vec(snap, end) and pre + '/handed-out-vector-changed' not in [k for k, _ in out]:
+                out.append((pre + '/handed-out-vector-changed', '%s: the vector handed out at read #%d read %s… then and reads %s… at the end (events %s)' % (
+                    name, i + 1, [float(x) for x in snap[:4]], [float(x) for x in end[:4]], evs)))
+        if res['val_bad']:
+            b = res['val_bad'][0]
+            out.append((pre + '/values-not-of-held-input', '%s: after the events %s the spectral values %s… differ from those of a fresh analyzer on the input held (series #%d): %s…' % (
+                name, evs, b['got'], b['held'], b['fresh'])))
+        return out
+    if fam == 'ctor':
+        pre = 'refused-constructor/%s/%s' % (TWO_CLS[m['cls']], m['kind'])
+        if res['raised'] and res['written']:
+            out.append((pre + '/callers-dict-changed', '%s(%s series, method=d) raised %s and left the keys %s behind in the caller\'s dict d' % (
+                TWO_CLS[m['cls']], m['kind'], res['raised'], res['stamped'])))
+        if res['data_changed']:
+            out.append((pre + '/data-changed', 'the constructor changed the samples of the series it was given'))
+        if res['raised']:
+            N = m['N']
+            want = [Fr(j) * fs_true(m['good']) / N for j in range(N // 2 + 1)]
+            for tag in ('f_same', 'f_own'):
+                fl = [float(v) for v in res[tag]]
+                if len(fl) != len(want) or not close4(fl, want):
+                    out.append((pre + ('/grid' if tag == 'f_same' else '/grid-also-with-own-dict'),
+                                'after the refused construction (%s) an analyzer built with %s on a %s Hz series reports %s…%s, its grid is %s…%s' % (
+                                    res['raised'], 'the SAME caller dict' if tag == 'f_same' else 'a fresh equal dict', fs_true(m['good']), fl[:3], fl[-1:],
+                                    [float(q) for q in want[:3]], float(want[-1]))))
+        return out
+    pre = 'refused-call/%s' % m['kind']
+    N = m['N']
+    want = [Fr(j) * Fr(x2f(m['Fs'])) / N for j in range(N // 2 + 1)]
+    fl = [float(v) for v in res['f']]
+    if len(fl) != len(want) or not close4(fl, want):
+        out.append((pre + '/grid', '%s called with %s (%s), then properly with the same method dict and data: frequencies %s…, true grid %s…' % (
+            m['kind'].split('/')[0], m['kind'].split('/')[1], res['raised'] or 'accepted', fl[:4], [float(q) for q in want[:4]])))
+    if res['data_changed']:
+        out.append((pre + '/data-changed', 'the refused call changed the data array it was given'))
+    if res['raised'] and res['leaked']:
+        out.append((pre + '/method-dict-changed', 'the refused call (%s) left the keys %s behind in the caller\'s method dict' % (res['raised'], res['leaked'])))
+    return out
+
+
+def gen_cand(rng, mA, kind, j):
+    fsA = x2f(mA['Fs'])
+    c = {'kind': kind, 'dseed': rng.randint(0, 10**6), 'n': mA['n']}
+    if kind in ('same-changed', 'rev-view'):
+        c.update(Fs=mA['Fs'], unit=mA.get('unit', 's'))
+        if mA.get('interval') is not None:
+            c['interval'] = mA['interval']
+        return c
+    if j % 2 == 0:
+        u, dt, rate = rng.choice([iv for iv in INTERVALS if float(iv[2]) != fsA])
+        c.update(unit=u, interval=dt, Fs=f2x(float(rate)))
+    else:
+        c.update(Fs=f2x(fsA * rng.choice([2.5, 0.5, 4.0])), unit=rng.choice(['s', 'ms', 'us']))
+    if kind == 'short':
+        c['n'] = max(3, mA['N'] - 1 - (j % 2))
+    elif mA['call'] in N_IS_LENGTH and kind in ('ok', '1d', 'few', 'row-view'):
+        c['n'] = mA['n'] + [1, 2, 3][j % 3]
+    return c
+
+
+SESS_PATTERNS = [                       # s:<kind> set_input (caught), f frequencies, v spectral values, r reset()
+    ['s:1d', 'f', 'v'], ['f', 's:1d', 'f', 'r', 'f', 'v'], ['s:few', 'f', 'v'], ['v', 'f', 's:few', 'r', 'v', 'f'],
+    ['s:1d', 's:ok', 'f', 'v'], ['s:ok', 'f', 's:1d', 'r', 'f', 'v'], ['s:few', 's:1d', 'v', 'f'], ['f', 's:short', 'f', 'v'],
+    ['f', 'v', 's:same-changed', 'f', 'v'], ['v', 's:rev-view', 'v', 'f'], ['s:row-view', 'f', 'v', 's:few', 'f'],
+    ['s:ok', 's:few', 'r', 'f', 'v', 's:same-changed', 'v'],
+]
+
+
+def gen_sess(rng, name, tier, idx, userfs):
+    mA = gen_meta(rng, name, tier, idx)
+    for k in ('retarget', 'k0', 'centroid'):
+        mA.pop(k, None)
+    if name in BANDED and mA.get('lb') is not None and mA.get('ub') is not None and x2f(mA['lb']) > x2f(mA['ub']):
+        mA['lb'], mA['ub'] = mA['ub'], mA['lb']
+    if userfs and name in SESS_CLS:
+        # the caller fixes 'Fs' in the method dict: it is NOT to follow the inputs
+        mA.pop('interval', None)
+        mA['opts'] = {'fs_dict': True, 'series_fs': f2x(3.0 * x2f(mA['Fs']))}
+    pat = SESS_PATTERNS[idx % len(SESS_PATTERNS)] if name in SESS_CLS else [['f', 's:%s' % k, 'f', 'v'] if idx % 2 else ['s:%s' % k, 'v', 'f']
+                                                                             for k in CAND_KINDS][(idx // 2) % len(CAND_KINDS)]
+    evs = []
+    for j, t in enumerate(pat):
+        if t.startswith('s:'):
+            evs.append({'op': 's', 'cand': gen_cand(rng, mA, t[2:], idx + j)})
+        else:
+            evs.append({'op': t})
+    return {'call': 'fail', 'fam': 'sess' if name in SESS_CLS else 'setinput', 'site': name, 'base': mA, 'events': evs, 'N': mA['N'], 'n': mA['n']}
+
+
+def gen_ctor(rng, cls, kind, idx):
+    N = [8, 9, 16, 12][idx % 4]
+    u, dt, rate = INTERVALS[idx % len(INTERVALS)]
+    bad = {'call': 'x', 'n': 4 * N + 3, 'N': N, 'dseed': rng.randint(0, 10**6), 'unit': u, 'interval': dt, 'Fs': f2x(float(rate))}
+    fs2 = rng.choice([v for v in FS_VALUES if v != float(rate)])
+    good = {'call': 'x', 'n': 4 * N + 2, 'N': N, 'dseed': rng.randint(0, 10**6), 'unit': 's', 'Fs': f2x(float(fs2))}
+    return {'call': 'fail', 'fam': 'ctor', 'cls': cls, 'kind': kind, 'bad': bad, 'good': good, 'N': N, 'n': bad['n']}
+
+
+def gen_fn(rng, kind, idx):
+    N = [8, 9, 16, 7][idx % 4]
+    return {'call': 'fail', 'fam': 'fn', 'kind': kind, 'N': N, 'n': 4 * N + idx % 5, 'dseed': rng.randint(0, 10**6),
+            'Fs': f2x(float(rng.choice(FS_VALUES)))}
+
+
+def fail_cases(rng, tier, rep):
+    out = []
+    for r in range(rep):
+        for name in SESS_CLS:
+            for i in range(2 * len(SESS_PATTERNS)):
+                c = fail_case(gen_sess(rng, name, tier, i + r, userfs=(i >= len(SESS_PATTERNS) and i % 3 == 0)))
+                out.append(c)
+        for name, hows in RT_HOWS.items():
+            if 'set_input' not in hows or name in SESS_CLS:
+                continue
+            for i in range(2 * len(CAND_KINDS)):
+                try:
+                    c = fail_case(gen_sess(rng, name, tier, i + r, False))
+                except NotApplicable:
+                    continue
+                if keep_ok(c, 'refused-set_input'):
+                    out.append(c)
+        i = 0
+        for cls, kinds in CTOR_KINDS.items():
+            for kind in kinds:
+                for _ in range(2):
+                    i += 1
+                    out.append(fail_case(gen_ctor(rng, cls, kind, i + r)))
+        for j, kind in enumerate(FN_KINDS):
+            for t in range(2):
+                out.append(fail_case(gen_fn(rng, kind, 2 * j + t + r)))
+    return out
+
+
 def model_line(m):
     if m.get('call') == 'two':
         return two_line(m)
@@ -725,6 +1218,8 @@ def hist_label(m):
 
 def judge(m, res):
     """independent oracle on one call: list of (key, what)"""
+    if m.get('call') == 'fail':
+        return judge_fail(m, res)
     if m.get('call') == 'two':
         return judge_two(m, res)
     if m.get('call') == 'sk':
@@ -1554,6 +2049,8 @@ def cases(rng, tier, seed):
                     i += 1
                     out.append(draw(lambda: gen_history(rng, name, tier, ev, o, i + r, dc)))
     out += option_cases(rng, tier, seed, rep)
+    # (7) failure paths and aliasing: refused set_input calls / constructions / function calls, then the same objects judged
+    out += fail_cases(rng, tier, rep)
     # several live analyzers: every ordered pair of classes x how they get their method dict x order of events
     # (thorough: also triples)
     for r in range(rep):
